@@ -148,6 +148,16 @@ def run_pos(sh, ctx):
 			elif ok == 'random':
 				rng.shuffle(order)
 			dt = rng.choice([w.dtype, 'u8', 'i8']) if w.k <= 12 else w.dtype
+			restore = None
+			if n >= 2 and id_attr != 'ncbi_id' and rng.random() < 0.35:
+				# two genomes whose identifiers are different strings that LOOK the same (NFC / NFD spelling, trailing blank, other case):
+				# each has its own signature under its own identifier
+				a_, b_ = rng.sample(range(n), 2)
+				base_ = 'sample-' + rng.choice(['x', 'iso_A', 'Z9'])
+				pair = rng.choice([(base_ + '\u00e9', base_ + 'e\u0301'), (base_, base_ + ' '), (base_, base_.swapcase()), (base_ + '\u212b', base_ + '\u00c5'), (base_, base_ + '\u200b')])
+				restore = (a_, w.genomes[a_][id_attr], b_, w.genomes[b_][id_attr])
+				w.genomes[a_][id_attr], w.genomes[b_][id_attr] = pair
+				ctx.count('look_alike_identifier_pairs')
 			d = ctx.workdir / f'w{wi}_{id_attr}'
 			w.write_db(d, sig_order=order, id_attr=id_attr, with_extra=True, sig_dtype=dt, interleave_seed=rng.random())
 			desc = dict(id_attr=id_attr, order=ok, sig_order=order, n=n, n_extra=len(w.extra), file_ids=[str(x) for x in w.last_file_ids][:30], dtype=str(dt))
@@ -166,11 +176,15 @@ def run_pos(sh, ctx):
 				db = ReferenceDatabase.load_from_dir(d)
 			except Exception as e:
 				ctx.violation('valid-database-refused', f'load_from_dir raised {type(e).__name__}: {e}', desc)
+				if restore:
+					w.genomes[restore[0]][id_attr], w.genomes[restore[2]][id_attr] = restore[1], restore[3]
 				continue
 			try:
 				check_loaded(ctx, w, db, id_attr, order, desc)
 			finally:
 				db.signatures.close(); db.session.close()
+				if restore:
+					w.genomes[restore[0]][id_attr], w.genomes[restore[2]][id_attr] = restore[1], restore[3]
 			shutil.rmtree(d, ignore_errors=True)
 
 
@@ -211,14 +225,19 @@ def run_neg(sh, ctx):
 			orig = w.genomes[a][id_attr]
 			bid = w.genomes[b][id_attr]
 			if isinstance(bid, str):
-				cands = [('extends', bid + '7'), ('extends', bid + '0' * 5), ('prefix', bid[:-1]), ('case', bid.swapcase()), ('trailing-blank', bid + ' '), ('leading-blank', ' ' + bid), ('nul', bid + '\0x')]
+				cands = [('extends', bid + '7'), ('extends', bid + '0' * 5), ('prefix', bid[:-1]), ('case', bid.swapcase()), ('trailing-blank', bid + ' '), ('leading-blank', ' ' + bid), ('nul', bid + '\0x'),
+				         ('trailing-cr', bid + '\r'), ('trailing-tab', bid + '\t'), ('trailing-newline', bid + '\n'), ('nbsp', bid + '\u00a0'), ('zero-width', bid + '\u200b'),
+				         # canonically equivalent spellings (NFC vs NFD) and compatibility characters are DIFFERENT identifiers: b gets the one, a the other
+				         ('nfd-of-nfc', bid + 'e\u0301', bid + '\u00e9'), ('nfc-of-nfd', bid + '\u00e9', bid + 'e\u0301'), ('angstrom-vs-a-ring', bid + '\u212b', bid + '\u00c5'), ('fullwidth', bid + '\uff21', bid + 'A')]
 			else:
 				cands = [('mod-2^8', bid + 256), ('mod-2^16', bid + 65536), ('mod-2^32', bid + 2 ** 32), ('negated', -bid), ('mod-2^31', bid + 2 ** 31)]
 			taken = {g[id_attr] for g in w.genomes}
-			for kind, nid in cands:
+			for kind, nid, *bnew in cands:
 				if nid in taken or nid == '':
 					continue
 				w.genomes[a][id_attr] = nid
+				if bnew:
+					w.genomes[b][id_attr] = bnew[0]
 				d = ctx.workdir / f'n{wi}_near_{kind}'
 				try:
 					w.write_db(d, sig_order=order, id_attr=id_attr, drop_sig_of=a)
@@ -228,6 +247,7 @@ def run_neg(sh, ctx):
 					continue
 				finally:
 					w.genomes[a][id_attr] = orig
+					w.genomes[b][id_attr] = bid
 				expect_load_failure(ctx, d, 'near-miss-id', dict(id_attr=id_attr, kind=kind, missing_id=repr(nid), similar_id_in_file=repr(bid), n=n))
 				ctx.count(f'near-miss-id:{kind}')
 				shutil.rmtree(d)
@@ -456,7 +476,7 @@ def finalize(merged, tier, seed, inconclusive):
 	c = merged['counters']
 	need = [f'id_attr:{a}' for a in ID_ATTRS] + ['order:random', 'order:reversed', 'with_unrelated_signatures', 'negative:dropped-signature', 'negative:renamed-id',
 	        'negative:id_attr-none', 'negative:id_attr-misspelt', 'negative:null-id-column', 'negative:ids-of-wrong-kind', 'negative:dir:two-gdb', 'negative:dir:no-signature-file',
-	        'directory_ok:db+h5', 'cli_commands', 'big_databases', 'interleaved_queries_on_one_database', 'negative:near-miss-id']
+	        'directory_ok:db+h5', 'cli_commands', 'big_databases', 'interleaved_queries_on_one_database', 'negative:near-miss-id', 'look_alike_identifier_pairs']
 	for n in need:
 		if c.get(n, 0) == 0:
 			inconclusive.append(f'class never observed: {n}')
